@@ -733,12 +733,12 @@ func TrackerCount(t *MailboxTracker) uint32 { return t.numMessages }
 //@   props C02:post,pre@call C19:post,pre@call
 //@   requires criteria != nil
 //@   ensures __called("readSearchKey") && __failed("readSearchKey") ==> err != nil
-//@   ensures[C02] err == nil && strings.ToUpper(key) == "NOT" ==> len(criteria.Not) == old(len(criteria.Not))+1 && len(criteria.NotFlag) == old(len(criteria.NotFlag)) && len(criteria.Flag) == old(len(criteria.Flag)) && len(criteria.Or) == old(len(criteria.Or))
+//@   ensures[C02,C19] err == nil && strings.ToUpper(key) == "NOT" ==> len(criteria.Not) == old(len(criteria.Not))+1 && len(criteria.NotFlag) == old(len(criteria.NotFlag)) && len(criteria.Flag) == old(len(criteria.Flag)) && len(criteria.Or) == old(len(criteria.Or))
 //@   ensures[C02] err == nil && strings.ToUpper(key) == "OR" ==> len(criteria.Or) == old(len(criteria.Or))+1 && len(criteria.Not) == old(len(criteria.Not)) && len(criteria.NotFlag) == old(len(criteria.NotFlag)) && len(criteria.Flag) == old(len(criteria.Flag))
 //@   ensures[C02] err == nil && strings.ToUpper(key) == "SEEN" ==> len(criteria.Flag) == old(len(criteria.Flag))+1 && len(criteria.NotFlag) == old(len(criteria.NotFlag)) && len(criteria.Not) == old(len(criteria.Not))
 //@   ensures[C02] err == nil && strings.ToUpper(key) == "UNSEEN" ==> len(criteria.NotFlag) == old(len(criteria.NotFlag))+1 && len(criteria.Flag) == old(len(criteria.Flag)) && len(criteria.Not) == old(len(criteria.Not))
-//@   ensures[C02] err == nil && strings.ToUpper(key) == "BODY" ==> len(criteria.Body) == old(len(criteria.Body))+1 && len(criteria.Text) == old(len(criteria.Text))
-//@   ensures[C02] err == nil && strings.ToUpper(key) == "TEXT" ==> len(criteria.Text) == old(len(criteria.Text))+1 && len(criteria.Body) == old(len(criteria.Body))
+//@   ensures[C02,C19] err == nil && strings.ToUpper(key) == "BODY" ==> len(criteria.Body) == old(len(criteria.Body))+1 && len(criteria.Text) == old(len(criteria.Text))
+//@   ensures[C02,C19] err == nil && strings.ToUpper(key) == "TEXT" ==> len(criteria.Text) == old(len(criteria.Text))+1 && len(criteria.Body) == old(len(criteria.Body))
 //@   ensures[C02] err == nil && strings.ToUpper(key) == "ALL" ==> len(criteria.Flag) == old(len(criteria.Flag)) && len(criteria.NotFlag) == old(len(criteria.NotFlag)) && len(criteria.Not) == old(len(criteria.Not)) && len(criteria.Or) == old(len(criteria.Or))
 //@   ensures len(criteria.NotFlag) >= old(len(criteria.NotFlag)) && len(criteria.Flag) >= old(len(criteria.Flag))
 //@   ensures old(criteria.Larger) >= 0 && old(criteria.Smaller) >= 0 ==> criteria.Larger >= 0 && criteria.Smaller >= 0
